@@ -116,10 +116,13 @@ def render(doc: Doc) -> str:
                 out.append("")
             elif len(w) > 2 and w[2]:
                 out.append(w[2])
-        elif k == "with":
-            out[-1] += f"with {w[1]};"
-        elif k == "assert":
-            out[-1] += f"assert {w[1]};"
+        elif k in ("with", "assert"):
+            out[-1] += f"{k} {w[1]};"
+            # trivia between the statement and what it wraps
+            if len(w) > 2 and w[2] == "blank":
+                out.append("")
+            elif len(w) > 2 and w[2]:
+                out.append(w[2])
         elif k == "paren":
             out[-1] += "("
             open_line = True
@@ -299,6 +302,11 @@ class DocGen:
                     wrappers.append(r.choice([("with", self.with_env()), ("assert", "true"), ("call", "f")]))
                     if wrappers[-1][0] == "call":
                         break
+            if self.after_in_trivia:
+                for i, w in enumerate(wrappers):
+                    if w[0] in ("with", "assert") and len(w) == 2:
+                        x = r.random()
+                        wrappers[i] = w + (("blank" if x < 0.15 else self.comment() if x < 0.3 and self.comments else None),)
             # let layers at random positions (never after a call head: `f let … in { }` is not valid Nix)
             nlets = r.choice([0, 0, 0, 1, 1, 2, 3]) if self.max_lets else 0
             nlets = min(nlets, self.max_lets)
